@@ -56,7 +56,7 @@ THEOREMS = [
     "KrroodVerif.Eql.C01_quant_need_A1",
     "KrroodVerif.Eql.C01_quant_need_A2",
     "KrroodVerif.Eql.C01_quant_need_shape",
-    "KrroodVerif.Eql.C01_quant_need_last",
+    "KrroodVerif.Eql.C01_quant_need_scope",
 ]
 MODEL_FUNCTION = "Eql.evalQuery / Eql.eval / Eql.build (Model/Eql.lean)"
 TRUSTED = [
@@ -160,7 +160,7 @@ def gen_quant_family(rng):
         parts.append(G.gen_cond(rng, vs, kinds, rng.randrange(1, 3), [], 0, False, rng.random() < 0.5, True))
     rng.shuffle(parts)
     k = rng.random()
-    if k < 0.75 or kind in ("forall", "not-exists"):
+    if k < 0.7:
         cond = _conj(rng, parts + [Q])                      # the quantifier LAST (chain fragment)
     elif k < 0.9:
         # and-TREE: a closed `exists` first, conjuncts and the quantifier after it (`v` is a second quantified variable
@@ -170,8 +170,8 @@ def gen_quant_family(rng):
         cond = _conj(rng, [first] + parts + [Q])
         kind = "tree-" + kind
     else:
-        # the quantifier in the MIDDLE: conjuncts after an `exists` (outside the chain fragment, inside the tree fragment
-        # when they do not use `u`)
+        # the quantifier in the MIDDLE: conjuncts after it (outside the chain fragment, inside the tree fragment when they
+        # do not use `u`)
         tail = [G.gen_atom(rng, vs, kinds, 0, must=rng.choice(vs))]
         cond = _conj(rng, parts + [Q] + tail)
         kind = "mid-" + kind
